@@ -211,6 +211,8 @@ class Contract(object):
                       'pre@callsite', src=site)
             ctx.assume(t)
         self._eval_olds(it, env)
+        if self.pre_state is not None:
+            self.pre_state(it, env.vars)
         # havoc the frame
         for head, field, T in self._modifies_paths(typed=True):
             o = it.spec_eval(head, env)
@@ -334,9 +336,13 @@ class LoopContract(object):
     def _havoc(self, it, node, frame, extra_names=()):
         names, attrs = assigned_names(node.body)
         names |= set(extra_names)
+        names |= set(k for k in self.havoc if '.' not in k)
+        havoced = set()
         for n in sorted(names):
             if n in self.havoc:
                 frame.vars[n] = make_value(it, self.havoc[n], n)
+                if isinstance(frame.vars[n], (PyList, PyDict)):
+                    havoced.add((id(frame.vars[n]), '[]'))
             elif n in self.define:
                 continue
             elif n in frame.vars:
@@ -346,7 +352,6 @@ class LoopContract(object):
                     raise EngineError('loop %s: cannot havoc local %s of kind %r (declare it)'
                                       % (self._name('havoc'), n, cur))
                 frame.vars[n] = nv
-        havoced = set()
         for path in self.havoc_fields:
             head, _, field = path.rpartition('.')
             o = it.spec_eval(head, frame) if head else frame.vars[field]
@@ -491,10 +496,18 @@ class _SeqView(object):
     def __init__(self, it, v):
         self.it = it
         self.v = v
+        if isinstance(v, Obj) and it.class_lookup(v.cls, '__iter__'):
+            v = it.call_method(v, '__iter__', [], {})
         if hasattr(v, 'pyvc_seq'):
             self.impl = v.pyvc_seq(it)
         elif isinstance(v, PyList) and v.items is None:
-            self.impl = (v.length, lambda i: v.arr[zint(i)])
+            if v.codec is not None:
+                self.impl = (v.length, lambda i: v.codec.decode(it, v.arr[zint(i)]))
+            else:
+                self.impl = (v.length, lambda i: v.arr[zint(i)])
+        elif isinstance(v, (PyList, tuple)):
+            items = v.items if isinstance(v, PyList) else list(v)
+            raise EngineError('for-loop contract over a concrete list')
         elif isinstance(v, SStr):
             self.impl = (V.slen(v), lambda i: V.sslice(it.ctx, v, i, simp(zint(i) + 1)))
         elif hasattr(v, 'lo') and hasattr(v, 'hi'):
@@ -655,6 +668,10 @@ class FunctionUnit(object):
                     raise PathAbort()
             c._eval_olds(it, env)
             env_old = env.vars['__old__']
+            pre_extra = {}
+            if c.pre_state is not None:
+                c.pre_state(it, pre_extra)
+                ctx.ghost['spec_vars'] = dict(pre_extra)    # visible to loop invariants of the unit's body
             inputs = _input_objects(bound)
             snap = {id(o): (o, dict(o.fields)) for o in inputs}
             for o in inputs:
@@ -680,6 +697,7 @@ class FunctionUnit(object):
             post.vars = dict(bound)
             post.vars['old'] = SpecFn('old', None)
             post.vars['__old__'] = env_old
+            post.vars.update(pre_extra)
             if exc is None:
                 col.cover(self.name + ':normal-exit', True)
                 post.vars['result'] = result
